@@ -14,7 +14,7 @@ CLAIMS = {
   "Assumed (reported per run in the evidence as ASSUMED PRECONDITION / ASSUMED CLAUSE notes): operand values handed to the leaf operations are well-formed (wfObj: no typed-nil, small arrays within their length bound) - a data invariant of evaluated values that the dispatcher does not establish; (*State).quote's contract; stdlib contracts in contracts/stdlib.contracts; strings shorter than 2^46."),
  "C02": ("proof",
   "Structural core decided on SSA: the printer and the parser take operator precedence from one and the same table (every precedence lookup in packages parser and ast reads ast.Precedences, which nothing writes after package initialisation), so the printer's parenthesisation and the parser's grouping cannot drift apart through a table edit. "
-  "The identity parse(print(t)) = t itself relates two recursive algorithms over all programs and the parser (function-value dispatch) is outside the verifier's subset: bounded stand-in over 1264 source texts (repository examples and tests, every ordered pair of the 18 binary operators in three nestings, every prefix/binary combination, 35 statement shapes), normal and compact mode, structure compared by fully parenthesised print. It found a genuine defect that is fixed (a - (b - c) formatted as a - b - c; adjacent signs in compact mode) and one that is recorded (the parentheses of a + chain are dropped, which the repository's own parser test requires).",
+  "The identity parse(print(t)) = t itself relates two recursive algorithms over all programs (the parser's panic freedom is proved under C08, not what it returns): bounded stand-in over about 7000 source texts (repository examples and tests; every ordered pair of the 18 binary operators in three nestings; every prefix/binary combination; 18 operand forms - if/for/lambda/function/call/index/literal - on both sides of 11 operators and in index/call/prefix/condition positions; every ordered pair of 32 statement forms on consecutive lines, at top level and in a function body; string literals with raw non-UTF-8 bytes and escapes; number spellings; comment placements), normal and compact mode, trees compared both by fully parenthesised print and by a reflection dump that does not go through the printer under test. It found six genuine defects that are fixed (a - (b - c) formatted as a - b - c; adjacent signs in compact mode; a lambda operand and a parenthesised callee losing their parentheses; two word statements printed as one word; a[1:] printed as a[1 : nil]; a lambda statement glued to the statement before it) and two that are recorded (the parentheses of a + chain on the right are dropped, which the repository's own parser test requires; a statement starting with a prefix - or -- right after a parenthesised expression statement or a comment).",
   "The structural clause is an audit (no SMT obligations). The round trip is bounded only: this is the weakest claim in the set."),
  "C03": ("proof",
   "Structural core decided on SSA: formatting is a function of the tree and the mode flags only - no function reachable from the PrettyPrint methods, DebugString or the PrintState methods reads a package-level variable that is written after initialisation, ranges over a map, or can reach time / random / os functions; this is the 'in any process, after any other inputs were parsed' part of the property, for every input. "
@@ -66,7 +66,7 @@ CLAIMS = {
   "Assumed: string comparison axioms (strcmp) in the prelude; container Cmp recursion bounded."),
  "C13": ("proof",
   "Structural core decided on SSA over the whole repository, for every input: syntax trees are immutable after construction. No function stores into a field of a syntax-tree node or into an element of a []ast.Node block that it did not allocate in the same activation, except DefineMacros (which removes definitions from the program it is given); ast.Modify/ModifyNoOk are therefore copying rewriters (the class of the sharing bug of issue #223), macro objects are written only at creation, and quoteArgs calls nothing. "
-  "This gives: a definition is not altered by its uses, call sites expand independently, arguments are not evaluated during expansion. That the expanded tree is exactly the hand-substituted one is a relation over all templates and is covered by a bounded stand-in (14 templates x 10 argument tuples x 5 contexts, printed, re-parsed and evaluated), labelled bounded.",
+  "This gives: a definition is not altered by its uses, call sites expand independently, arguments are not evaluated during expansion. That the expanded tree is exactly the hand-substituted one is a relation over all templates and is covered by a bounded stand-in (20 templates incl. nested quotes x 12 argument tuples x 9 contexts incl. nested macro calls and a session through repl.EvalOne, printed, re-parsed and evaluated), labelled bounded.",
   "The structural clauses are audits on the real code's SSA (no SMT obligations), including that the per-node callbacks of ExpandMacros / DefineMacros write no captured variable or map (call sites share no state); freshness is syntactic per activation. Bounded stand-in is not a proof."),
  "C14": ("proof",
   "Structural core decided on the SSA of the real SaveGlobals / Inspect code, for every state: the file is written only through two fmt.Fprintf calls with the constant formats \"%s\\n\" and \"%s=%s\\n\" (one terminated line per binding), the name=value write is reached only when no limit is configured or len(val) > limit is false for the very string that is written and the function slices no string (over-long values are skipped, never truncated), the keys are sorted before the first write (the file is a function of the bindings), and String.Inspect is strconv.Quote. SaveGlobals's write-error contract (C18) is re-proved. "
